@@ -564,7 +564,7 @@ enum { CH_OPENED = 42, CH_REFUSED = 43 };
 static int forked_child_open(const char *path, const cfg_t *cfg, int *rc_out) {
   pid_t pid;
   int st;
-  pid = fork();
+  pid = iom_fork();
   if (pid < 0) vh_fatal("fork failed: %s", strerror(errno));
   if (pid == 0) {
     dbh_t h;
@@ -799,6 +799,11 @@ static void lk_fork_child(lk_t *L, ldbs_t *D) {
   } else if (r == 0) {
     vh_count("refused_second_open_forked_child", 1);
     vh_distinct("c20_state", "lock|open|second-open-forked-child");
+  } else if (WIFSIGNALED(st) && WTERMSIG(st) == SIGALRM) {
+    /* the child's 60 s wall-clock watchdog: inconclusive, never a verdict (a loaded machine, or a fork taken at a bad
+       moment for some lock of the harness); counted so that the evidence shows it */
+    vh_count("forked_child_watchdog_expired", 1);
+    vh_note("forked child trying ldb_open(%s): watchdog expired (inconclusive)", D->base);
   } else {
     lv("forked-child-crashed", "forked child trying ldb_open(%s) ended with wait status 0x%x", D->base, st);
     L->abandon = 1;
